@@ -199,12 +199,13 @@ def run(prog, rep):
         reach_from_effect = set()
         first_eff = {}
         for eid, e in eff.items():
-            r = cfg.reachable(cfg.nodes[eid], normal_only=True)
+            # caught exceptions continue in their handler: follow those edges too (rexit is a sink)
+            r = cfg.reachable(cfg.nodes[eid], normal_only=False)
             for x in r:
                 first_eff.setdefault(x, e)
             reach_from_effect |= r
         for rid, (rev, why) in sorted(rej.items()):
-            if rid in reach_from_effect and not (rid in eff and first_eff[rid] is eff[rid] and len([x for x in eff if rid in cfg.reachable(cfg.nodes[x], normal_only=True)]) == 0):
+            if rid in reach_from_effect and not (rid in eff and first_eff[rid] is eff[rid] and len([x for x in eff if rid in cfg.reachable(cfg.nodes[x], normal_only=False)]) == 0):
                 fe = first_eff[rid]
                 rep.fail("validate-before-effect", mod, fq, rev.stmt,
                          f"{why} AFTER the file/table was already changed by `{norm(head(fe.stmt))}`: a refusal here leaves a half-applied mutation")
